@@ -1429,13 +1429,23 @@ bus_driver_handle_remove_match (DBusConnection *connection,
   if (rule == NULL)
     goto failed;
 
+  matchmaker = bus_connection_get_matchmaker (connection);
+
+  /* Fail before anything is queued for the caller: an error raised after
+   * the ack would be a second reply to the same call.
+   */
+  if (!bus_matchmaker_has_rule_by_value (matchmaker, rule))
+    {
+      dbus_set_error (error, DBUS_ERROR_MATCH_RULE_NOT_FOUND,
+                      "The given match rule wasn't found and can't be removed");
+      goto failed;
+    }
+
   /* Send the ack before we remove the rule, since the ack is undone
    * on transaction cancel, but rule removal isn't.
    */
   if (!bus_driver_send_ack_reply (connection, transaction, message, error))
     goto failed;
-
-  matchmaker = bus_connection_get_matchmaker (connection);
 
   if (!bus_matchmaker_remove_rule_by_value (matchmaker, rule, error))
     goto failed;
